@@ -40,6 +40,7 @@ type loopInfo struct {
 }
 
 type retInfo struct {
+	blk   *ssa.BasicBlock
 	pos   token.Pos
 	reach string
 	vals  []Val
@@ -280,6 +281,9 @@ func (f *Frame) run(st *State, reach string, args []Val, bindings []Val) {
 	order := f.rpo()
 	for _, b := range order {
 		f.cur = b
+		if f.top {
+			c.curBlk = b
+		}
 		var cur *State
 		var r string
 		if b == fn.Blocks[0] {
@@ -515,7 +519,7 @@ func (f *Frame) oblige(kind string, cl *Clause, reach, goal string) *Obligation 
 		}
 		c.seenGoal[key] = true
 	}
-	ob := &Obligation{Name: f.obName(kind), Func: c.key, Kind: kind, NDecl: len(c.decls), NFact: len(c.facts), Reach: reach, Goal: goal, Ctx: c, Expect: "unsat"}
+	ob := &Obligation{Name: f.obName(kind), Func: c.key, Kind: kind, NDecl: len(c.decls), NFact: len(c.facts), Reach: reach, Goal: goal, Ctx: c, Expect: "unsat", Blk: c.curBlk}
 	if cl != nil {
 		ob.Props = cl.Props
 		ob.Needs = cl.Needs
@@ -747,7 +751,7 @@ func (f *Frame) execBlock(b *ssa.BasicBlock, st *State, r string) {
 			for _, rv := range i.Results {
 				vals = append(vals, f.val(rv))
 			}
-			f.rets = append(f.rets, retInfo{reach: r, vals: vals, st: st, pos: i.Pos()})
+			f.rets = append(f.rets, retInfo{reach: r, vals: vals, st: st, pos: i.Pos(), blk: b})
 		case *ssa.Panic:
 			// reachable panic is a violation of the no-panic property
 			txt := f.srcText(i.Pos(), isCallExpr)
@@ -764,7 +768,17 @@ func (f *Frame) finishEdge(b *ssa.BasicBlock, si int, cond string, st *State) {
 		f.out[b] = append(f.out[b], edge{})
 	}
 	if succ.Dominates(b) && f.loops[succ] != nil {
-		// back edge
+		// back edge. When the source is a pure join block, check the invariants on each incoming path
+		// separately (smaller queries, and facts of sibling branches are filtered out).
+		if f.top && isTrivialJoin(b) && len(b.Preds) > 1 {
+			saved := f.c.curBlk
+			for _, pe := range f.expandJoin(b) {
+				f.c.curBlk = pe.blk
+				f.closeLoop(f.loops[succ], pe.e.st, pe.e.cond)
+			}
+			f.c.curBlk = saved
+			return
+		}
 		f.closeLoop(f.loops[succ], st, cond)
 		return
 	}
@@ -1129,8 +1143,11 @@ func (f *Frame) execTypeAssert(i *ssa.TypeAssert, st *State, r string) Val {
 		ok = "(and (not (= " + x.T + " 0)) (= (typeOf " + x.T + ") " + c.eng.tagOfType(i.AssertedType) + "))"
 	}
 	if isRefType(i.AssertedType) {
-		res := Val{T: "(ite " + ok + " " + x.T + " 0)", S: "Int", GT: i.AssertedType}
 		if i.CommaOk {
+			// name the result (an ite here would end up inside quantifier patterns, which solvers reject)
+			v := c.fresh("ta", "Int")
+			c.assume(r, "(= "+v+" (ite "+ok+" "+x.T+" 0))")
+			res := Val{T: v, S: "Int", GT: i.AssertedType}
 			return Val{Tup: []Val{res, tv(ok, "Bool")}}
 		}
 		f.safe("assert", i.Pos(), r, ok, isAssertExpr)
@@ -1256,4 +1273,39 @@ func (f *Frame) closureDefines(i *ssa.MakeClosure, fn *ssa.Function, ref string,
 		}
 		c.assume(r, g)
 	}
+}
+
+type predEdge struct {
+	blk *ssa.BasicBlock
+	e   edge
+}
+
+func isTrivialJoin(b *ssa.BasicBlock) bool {
+	for _, ins := range b.Instrs {
+		switch ins.(type) {
+		case *ssa.DebugRef, *ssa.Jump:
+		default:
+			return false
+		}
+	}
+	return len(b.Succs) == 1
+}
+
+// expandJoin lists the edges entering a pure join block, looking through nested pure join blocks.
+func (f *Frame) expandJoin(b *ssa.BasicBlock) []predEdge {
+	var out []predEdge
+	for _, p := range b.Preds {
+		es := f.out[p]
+		for si, s := range p.Succs {
+			if s != b || si >= len(es) || es[si].st == nil {
+				continue
+			}
+			if isTrivialJoin(p) && len(p.Preds) > 1 && f.loops[p] == nil {
+				out = append(out, f.expandJoin(p)...)
+			} else {
+				out = append(out, predEdge{p, es[si]})
+			}
+		}
+	}
+	return out
 }
